@@ -283,11 +283,14 @@ func readEnum(tr *tokenReader, bitflags bool) (Enum, error) {
 	nextCommentLines := []string{}
 	nextDeprecatedMessage := ""
 	nextIsDeprecated := false
-	for tr.Token().kind != tokenKindCloseCurly {
+	for {
 		if !tr.Next() {
 			return en, readError(tr.nextToken, "enum definition ended early")
 		}
 		tk := tr.Token()
+		if tk.kind == tokenKindCloseCurly {
+			break
+		}
 		switch tk.kind {
 		case tokenKindNewline:
 			nextCommentLines = []string{}
@@ -324,6 +327,9 @@ func readEnum(tr *tokenReader, bitflags bool) (Enum, error) {
 			nextCommentLines = append(nextCommentLines, readBlockComment(tr, tk))
 		case tokenKindLineComment:
 			nextCommentLines = append(nextCommentLines, sanitizeComment(tk))
+		default:
+			// e.g. a member named like a keyword: skipping the token would drop the member
+			return en, readError(tk, "unexpected token %v in enum definition", tk.kind)
 		}
 	}
 
